@@ -33,7 +33,9 @@ class FT:
         self.name = rec['name']
 
     def is_alive(self):
-        return self.rec['alive']
+        # a thread started through _thread that once called threading.current_thread() stays in
+        # threading's table as a _DummyThread whose is_alive() is True for ever ('zombie')
+        return self.rec['alive'] or self.rec.get('zombie', False)
 
     def __repr__(self):
         return '<T %s>' % self.name
@@ -51,7 +53,7 @@ class _FakeThreadingMod:
 
     @staticmethod
     def enumerate():
-        return [r['obj'] for r in TABLE if r['alive'] and r['known']]
+        return [r['obj'] for r in TABLE if r['known'] and (r['alive'] or r.get('zombie', False))]
 
 
 TS.current_frames = fake_frames
@@ -70,6 +72,12 @@ def _start(ident, name, known):
 
 class _Invalid(Exception):
     pass
+
+
+def _kill(rec):
+    rec['alive'] = False
+    if rec.get('lingers'):
+        rec['zombie'] = True
 
 
 class Out:
@@ -122,15 +130,15 @@ def mk_test(tname, script, proto=True):
 
 
 _OPT = []
-NAMES = ['worker', 'ignored-x']
+NAMES = ['worker', 'ignored-x', 'x-ignored']
 
 
-def threads(proto, id_a, id_b, id_c, a_exists, a_known, a_end, b_known, b_name, b_end, c_exists, c_known, c_name, c_leaks):
+def threads(proto, id_a, id_b, id_c, a_exists, a_known, a_end, b_known, b_name, b_end, c_exists, c_known, c_name, c_leaks, lingers):
     global LAST
     del TABLE[:]
     del REPORTED[:]
     ia, ib, ic = ci(id_a, 1, 3), ci(id_b, 1, 3), ci(id_c, 1, 3)
-    a_exists, a_known, b_known, c_exists, c_known, c_leaks = map(cb, (a_exists, a_known, b_known, c_exists, c_known, c_leaks))
+    a_exists, a_known, b_known, c_exists, c_known, c_leaks, lingers = map(cb, (a_exists, a_known, b_known, c_exists, c_known, c_leaks, lingers))
     a_end, b_end = ci(a_end, 0, 2), ci(b_end, 0, 3)
     bn, cn = pick(NAMES, b_name), pick(NAMES, c_name)
     main = _start(1 << 40, 'Main', True)
@@ -147,8 +155,9 @@ def threads(proto, id_a, id_b, id_c, a_exists, a_known, a_end, b_known, b_name, 
             if a_exists and a_end == 0:
                 state['a']['alive'] = False
             state['b'] = _start(ib, bn, b_known)
+            state['b']['lingers'] = lingers and b_known
             if b_end == 0:
-                state['b']['alive'] = False
+                _kill(state['b'])
         except _Invalid:
             invalid.append(1)
 
@@ -157,7 +166,7 @@ def threads(proto, id_a, id_b, id_c, a_exists, a_known, a_end, b_known, b_name, 
             if a_exists and a_end == 1:
                 state['a']['alive'] = False
             if b_end == 2 and 'b' in state:
-                state['b']['alive'] = False
+                _kill(state['b'])
             if c_exists:
                 state['c'] = _start(ic, cn, c_known)
                 if not c_leaks:
@@ -183,7 +192,7 @@ def threads(proto, id_a, id_b, id_c, a_exists, a_known, a_end, b_known, b_name, 
         def __iter__(self):
             for i, t in enumerate(self._tests):
                 if i == 1 and b_end == 1 and 'b' in state:
-                    state['b']['alive'] = False     # released between the two tests
+                    _kill(state['b'])     # released between the two tests
                 yield t
     suite = Suite(tests)
     R.run_tests(opts, suite, UNIT, [], [], [], [])
@@ -198,7 +207,7 @@ def threads(proto, id_a, id_b, id_c, a_exists, a_known, a_end, b_known, b_name, 
         exp.append(('t0', [shown(b_known, bn, ib)]))
     if c_exists and c_leaks and not (c_known and cn.startswith('ignored')):
         exp.append(('t1', [shown(c_known, cn, ic)]))
-    LAST = (ia, ib, ic, a_exists, a_known, a_end, b_known, bn, b_end, c_exists, c_known, cn, c_leaks, list(REPORTED))
+    LAST = (ia, ib, ic, a_exists, a_known, a_end, b_known, bn, b_end, c_exists, c_known, cn, c_leaks, list(REPORTED), lingers)
     return REPORTED == exp
 
 
@@ -208,18 +217,18 @@ def threads_reach(*a):
 
 
 _P = [('id_a', 'int'), ('id_b', 'int'), ('id_c', 'int'), ('a_exists', 'bool'), ('a_known', 'bool'), ('a_end', 'int'), ('b_known', 'bool'),
-      ('b_name', 'int'), ('b_end', 'int'), ('c_exists', 'bool'), ('c_known', 'bool'), ('c_name', 'int'), ('c_leaks', 'bool')]
+      ('b_name', 'int'), ('b_end', 'int'), ('c_exists', 'bool'), ('c_known', 'bool'), ('c_name', 'int'), ('c_leaks', 'bool'), ('lingers', 'bool')]
 _C = 'True, ' + ', '.join(n for n, _ in _P)
 _CTC = 'False, ' + ', '.join(n for n, _ in _P)
 # idents take part in equality/hashing only: explore one representative per
 # equality pattern (id_a = 1, id_b in {1,2}, id_c <= id_b + 1)
 _B = ('id_a == 1 and 1 <= id_b <= 2 and 1 <= id_c <= id_b + 1 and 0 <= a_end <= 2 and 0 <= b_end <= 3 '
-      'and 0 <= b_name <= 1 and 0 <= c_name <= 1')
+      'and 0 <= b_name <= 2 and 0 <= c_name <= 2 and (not lingers or (b_known and b_end != 3 and not (c_exists and id_c == id_b)))')
 
 
 def _v(**kw):
     v = dict(id_a=1, id_b=2, id_c=3, a_exists=True, a_known=True, a_end=2, b_known=True, b_name=0, b_end=3, c_exists=True,
-             c_known=True, c_name=0, c_leaks=True)
+             c_known=True, c_name=0, c_leaks=True, lingers=False)
     v.update(kw)
     return v
 
@@ -235,21 +244,21 @@ SPEC = {
               'options.output -> recorder of test_threads()', 'runner.time -> constant clock'],
     'assumptions': ['thread idents only take part in equality and hashing, so one representative per equality pattern of the '
                     '3 idents is complete (symmetry reduction)',
-                    'a dead thread is neither in sys._current_frames() nor alive in threading.enumerate()',
+                    'a dead thread is not in sys._current_frames(); threading.enumerate() may still list it as alive (a _DummyThread of a finished _thread thread)',
                     'threading.enumerate() returns the same object for the same thread every time'],
     'outside': ['real thread life-cycles and the OS ident allocator', 'more than 3 application threads / 2 tests'],
     'harnesses': [
         {'name': 'threads', 'fn': 'threads', 'params': _P, 'call': _C,
-         'bounds': {'quick': _B, 'thorough': _B},
-         'slices': {'quick': ['b_end == %d and id_b == %d and id_c == %d' % (e, i, c) for e in range(4) for i in (1, 2) for c in range(1, i + 2)],
+         'bounds': {'quick': _B + ' and (not lingers or (not a_exists and b_end == 0)) and (b_name < 2 or (c_name == 0 and not a_exists)) and c_name <= 1', 'thorough': _B},
+         'slices': {'quick': ['b_end == %d and id_b == %d and id_c == %d and %s' % (e, i, c, a) for e in range(4) for i in (1, 2) for c in range(1, i + 2) for a in ('a_exists', 'not a_exists')],
                     'thorough': ['b_end == %d and id_b == %d and id_c == %d and a_end == %d' % (e, i, c, a) for e in range(4) for i in (1, 2) for c in range(1, i + 2) for a in range(3)]},
          'reach': 'threads_reach', 'reach_bounds': {'quick': _B + ' and id_b == 2 and id_c == 3',
                                                     'thorough': _B + ' and id_b == 2 and id_c == 3'},
          'timeout': {'quick': 240, 'thorough': 800},
-         'fidelity': [_v(), _v(b_known=False, b_end=1, id_c=2), _v(a_end=0, id_b=1, b_name=1)]},
+         'fidelity': [_v(), _v(b_known=False, b_end=1, id_c=2), _v(a_end=0, id_b=1, b_name=1), _v(b_end=0, lingers=True, c_name=2)]},
         # the same world with real unittest.TestCase objects (TestCase.run drives the result)
         {'name': 'threads_tc', 'fn': 'threads', 'params': _P, 'call': _CTC,
-         'bounds': {'quick': _B + ' and c_name == 0 and b_name == 0 and a_known and id_b == 1',
+         'bounds': {'quick': _B + ' and c_name == 0 and b_name == 0 and a_known and id_b == 1 and not lingers',
                     'thorough': _B},
          'slices': {'quick': ['b_end == %d and id_c == %d' % (e, c) for e in range(4) for c in (1, 2)],
                     'thorough': ['b_end == %d and id_b == %d and id_c == %d and a_end == %d' % (e, i, c, a) for e in range(4) for i in (1, 2) for c in range(1, i + 2) for a in range(3)]},
